@@ -362,6 +362,32 @@ theorem rom_accepts_signed_v21_built (h : Mbi.Hyp co env c cfg signer) (hf : c.f
       ∧ (∀ ob ∈ a.obligations, holdsEcdsa co alg ob) :=
   Mbi.Built.rom_accepts_signed_v21_built h hf ht uk ks hk used hu r hr hcert alg sk rnd hsigner hpub
 
+/-- END TO END, ECC signed WITH an ISK certificate - the chain  root[used] → ISK → image  with the signing root index a parameter:
+    block built by `RootKeyRecord.calculate` (non-CA) from the root keys `ks` with signing root `used`, plus a well-formed ISK
+    certificate.  The ROM fused with `Spec.rotkh … cert_block_21 ks` accepts the exported image; the record names index `used` and
+    carries THAT root's public key; the two obligations left (ISK certificate under the carried root key, image under the ISK key)
+    hold when the certificate was signed by root `used` and the image by the ISK key (`verify_sign`). -/
+theorem rom_accepts_signed_v21_built_isk (h : Mbi.Hyp co env c cfg signer) (hf : c.family = some .signedV21) (ht : signedTypeOk c = true)
+    (uk : Option Mbi.Bytes) (ks : List Key) (hk : KeysOK .certBlock21 ks) (used : Nat) (hu : used < ks.length)
+    (r : RootKeyRecord) (hr : rkrCalculate co false ks used = .ok r)
+    (pointOk : Mbi.Bytes → Bool) (i : IskCert) (wi : WFisk pointOk r.rootPublicKey.length i)
+    (hsize : headerSizeV21 + (rkrBytes r).length + (iskBytes i).length < 2 ^ 32)
+    (hcert : cfg.cert = bytesV21 ⟨2, 1, r, some i⟩) (hsl : cfg.sigLen = i.pubKey.length)
+    (rootSk iskSk : PrivKey) (rnd rnd' : Rand) (alg : SigAlg)
+    (hroot : ∀ ku, ks[used]? = some ku → ku.material = co.pubOf rootSk)
+    (hisksig : ∀ cv : Curve, (∀ k ∈ ks, k.curve? = some cv) →
+        i.signature = co.sign (.ecdsa cv.hashAlg) rootSk (rkrBytes r ++ iskSignedPart i) rnd')
+    (hiskpub : i.pubKey = co.pubOf iskSk) (hsigner : signer = fun m => co.sign alg iskSk m rnd) :
+    ∃ (e pre : Mbi.Bytes) (a : Spec.MbiRom.Accepted) (cv : Curve) (ku : Key), exportImage co c cfg signer = .ok e
+      ∧ Spec.MbiRom.romCheck co (romEnvOf c (Spec.rotkh co .certBlock21 ks) uk) e = .ok a
+      ∧ ks[used]? = some ku ∧ r.rootPublicKey = ku.material ∧ rkrUsed r.flags = used ∧ rkrCa r.flags = false
+      ∧ a.obligations = [.ecdsa (co.pubOf rootSk) (rkrBytes r ++ iskSignedPart i) i.signature,
+                         .ecdsa (co.pubOf iskSk) pre (signer pre)]
+      ∧ co.verify (.ecdsa cv.hashAlg) (co.pubOf rootSk) (rkrBytes r ++ iskSignedPart i) i.signature = true
+      ∧ co.verify alg (co.pubOf iskSk) pre (signer pre) = true :=
+  Mbi.Built.rom_accepts_signed_v21_built_isk h hf ht uk ks hk used hu r hr pointOk i wi hsize hcert hsl rootSk iskSk rnd rnd' alg
+    hroot hisksig hiskpub hsigner
+
 /-- END TO END, RSA signed (plain signed, with HMAC / key store, or encrypted - same statement through the respective
     acceptance theorem): with a certificate block exported by the C03 model whose RKH table is the one
     `CertBlockV1.set_root_key_hash` computes from the root keys `ks`, the ROM fused with `Spec.rotkh … cert_block_1 ks`
